@@ -270,14 +270,49 @@ func (w *c07World) regGet(client int, rng *rand.Rand, kind cache.EntryKind, key 
 	}
 }
 
+// c07LateReader delivers its bytes after a pause.
+type c07LateReader struct {
+	data  []byte
+	delay time.Duration
+	pos   int
+}
+
+func (l *c07LateReader) Read(p []byte) (int, error) {
+	if l.pos == 0 && l.delay > 0 {
+		time.Sleep(l.delay)
+	}
+	if l.pos >= len(l.data) {
+		return 0, io.EOF
+	}
+	n := copy(p, l.data[l.pos:])
+	l.pos += n
+	return n, nil
+}
+
 func (w *c07World) casOp(client int, rng *rand.Rand) {
 	ctx := context.Background()
 	it := w.cas[rng.IntN(len(w.cas))]
 	n := int64(len(it.content))
-	switch rng.IntN(9) {
+	switch rng.IntN(10) {
 	case 0, 1:
 		err := w.c.Put(ctx, cache.CAS, it.hash, n, bytes.NewReader(it.content))
 		w.r.Count("op.casput." + okStr(err == nil))
+		if err != nil && !w.o.pressure && !errors.Is(err, context.Canceled) {
+			// no space pressure in this history: nothing the other clients do may make a well-formed upload fail
+			w.r.Violation("C07:valid-upload-refused", fmt.Sprintf("a well-formed CAS upload failed under concurrency without space pressure: %v", err), w.detail(map[string]any{"hash": it.hash, "size": n}))
+		}
+	case 9:
+		// over-long stream: the declared bytes, a pause, then surplus bytes (the upload must fail, and whatever
+		// the server does with the surplus must not leak into other clients' uploads)
+		surplus := make([]byte, 1+rng.IntN(8192))
+		for i := range surplus {
+			surplus[i] = 0xEE
+		}
+		rd := io.MultiReader(bytes.NewReader(it.content), &c07LateReader{data: surplus, delay: time.Duration(rng.IntN(1500)) * time.Microsecond})
+		if err := w.c.Put(ctx, cache.CAS, it.hash, n, rd); err == nil {
+			w.r.Violation("C07:bad-upload-accepted", "a CAS upload with surplus bytes was accepted under concurrency", w.detail(nil))
+		}
+		w.r.Count("op.casput-long")
 	case 2:
 		bad := append([]byte(nil), it.content...)
 		bad[rng.IntN(len(bad))] ^= 2
